@@ -423,3 +423,50 @@ def expand_or_terms(ff, e: ast.expr, depth: int = 0) -> List[ast.expr]:
                 continue
         out.append(t)
     return out
+
+
+class _SubstSrc(ast.NodeTransformer):
+    """Replace every sub-expression whose source text equals a key."""
+
+    def __init__(self, mapping: Dict[str, ast.expr]):
+        self.mapping = mapping
+
+    def visit(self, node):
+        if isinstance(node, ast.expr):
+            try:
+                t = ast.unparse(node)
+            except Exception:  # noqa
+                t = None
+            if t in self.mapping:
+                return copy.deepcopy(self.mapping[t])
+        return super().visit(node)
+
+
+def substitute_src(e: ast.expr, mapping: Dict[str, object]) -> ast.expr:
+    m = {k: (v if isinstance(v, ast.AST) else ast.Constant(value=v)) for k, v in mapping.items()}
+    out = _SubstSrc(m).visit(copy.deepcopy(e))
+    ast.fix_missing_locations(out)
+    return out
+
+
+def conj_of_facts(facts: List[Tuple[ast.expr, bool]]) -> ast.expr:
+    vals = []
+    for e, p in facts:
+        vals.append(copy.deepcopy(e) if p else ast.UnaryOp(op=ast.Not(), operand=copy.deepcopy(e)))
+    if not vals:
+        return ast.Constant(value=True)
+    if len(vals) == 1:
+        return vals[0]
+    return ast.BoolOp(op=ast.And(), values=vals)
+
+
+def inline_property(repo: Repo, cls_rel: str, cls_name: str, prop: str, recv: str) -> Optional[ast.expr]:
+    """Body expression of a one-line property `return <expr>` with `self` replaced by `recv`."""
+    try:
+        f = repo.func(cls_rel, f"{cls_name}.{prop}")
+    except AnalysisError:
+        return None
+    body = [s for s in f.node.body if not (isinstance(s, ast.Expr) and isinstance(s.value, ast.Constant))]
+    if len(body) != 1 or not isinstance(body[0], ast.Return) or body[0].value is None:
+        return None
+    return substitute(body[0].value, {"self": ast.parse(recv, mode="eval").body})
